@@ -614,6 +614,7 @@ def chk_finish(chk, search):
         'contracts of the operators used by the data-flow theorems (Model/Checkpoint.lean, execCallS): setLayout keeps the field, '
         'VParallelAdvection.gridStep overwrites parGradVals, solveEquation overwrites phi, getPerturbedRho overwrites rho; '
         'exercised end to end by the split / unsplit driver runs (fresh np.empty arrays after the restart)',
+        'a loadable folder (initParams.json present) holds at least one grid checkpoint (a fresh run writes t=0 right after setupSave)',
         'constants: the derived attribute rp is recomputed by the rMin/rMax setters; parameter files that set rp independently are outside the claim']
     chk.trusted = list(chk.trusted) + ['harness/translate_driver.py (AST -> Generated/TimeLoop.lean): refuses unknown statement shapes; '
                                        'its output is run against the real driver (files written, lines printed) on every run']
